@@ -56,6 +56,19 @@ Definition step_post (st : lstate) (l : lx) (p : lstate * lx) : Prop :=
   let '(st', l') := p in
   inv st' l' /\ phi st' l' + 1 <= phi st l /\ l_ticks l <= l_ticks l'.
 
+(* the same with an explicit budget B in place of the rank: the form the scanning loops are proved in *)
+Definition loop_post (B : Z) (l : lx) (p : lstate * lx) : Prop :=
+  let '(st', l') := p in
+  inv st' l' /\ phi st' l' + 1 <= l_ticks l + 40 * (ilen - l_pos l) + B /\ l_ticks l <= l_ticks l'.
+
+Lemma loop_post_mono B B2 l l2 p :
+  l_ticks l <= l_ticks l2 -> l_ticks l2 + 40 * (ilen - l_pos l2) + B2 <= l_ticks l + 40 * (ilen - l_pos l) + B ->
+  loop_post B2 l2 p -> loop_post B l p.
+Proof. destruct p as [st' l']. unfold loop_post. intros H1 H2 (Hi & Hp & Ht). split; [exact Hi|]. lia. Qed.
+
+Lemma loop_post_step st l p : st <> LDone -> loop_post (rank st) l p -> step_post st l p.
+Proof. destruct p as [st' l']. unfold loop_post, step_post, phi. intros Hst H. destruct st; try congruence; exact H. Qed.
+
 Lemma step_post_mono st l l2 p :
   st <> LDone -> l_ticks l <= l_ticks l2 -> l_ticks l2 + 40 * (ilen - l_pos l2) <= l_ticks l + 40 * (ilen - l_pos l) ->
   step_post st l2 p -> step_post st l p.
@@ -78,6 +91,7 @@ Ltac norm_bools :=
   | H : (_ <=? _) = true |- _ => apply Z.leb_le in H
   | H : (_ <? _) = true |- _ => apply Z.ltb_lt in H
   | H : (_ =? -1) = false |- _ => apply Z.eqb_neq in H
+  | H : (_ =? 0) = false |- _ => apply Z.eqb_neq in H
   | H : (_ =? eof) = false |- _ => apply Z.eqb_neq in H
   | H : gen_isSpaceEOL _ = true |- _ => apply isSpaceEOL_nonneg in H
   | H : gen_isSpace _ = true |- _ => apply isSpace_nonneg in H
@@ -91,8 +105,8 @@ Ltac norm_bools :=
   end.
 
 Ltac post :=
-  cbn [okp step_post]; cbn beta iota; dest_hyps; subst; norm_bools; change num_hex_prefix_len with 2 in *; unfold inv, wf, phi; cbn [rank]; lsimpl; unfold eof in *;
-  repeat split; intros; try discriminate; try assumption; try lia.
+  cbn [okp step_post loop_post]; cbn beta iota; dest_hyps; subst; norm_bools; change num_hex_prefix_len with 2 in *; unfold inv, wf, phi; cbn [rank]; lsimpl; unfold eof in *;
+  repeat split; intros; try discriminate; try assumption; try lia; try (unfold done_ok; eauto 8).
 
 Ltac side := solve [norm_bools; change num_hex_prefix_len with 2 in *; fin].
 
@@ -124,7 +138,7 @@ Ltac exec1 :=
       eapply okp_bind; [apply (alnum_loop_spec ul ud Hl Hd); [side | apply loop_fuel_ok; side]
                        | let l := fresh "l" in let H := fresh "Hal" in intros l H; unfold scan_post in H; cbn beta iota]
   | |- okp (bind (slice _ _ _ _) _) _ =>
-      eapply okp_bind; [apply slice_spec; side | let v := fresh "v" in intros v _; cbn beta iota]
+      eapply okp_bind; [apply slice_spec; side | let v := fresh "v" in let H := fresh "Hv" in intros v H; cbn beta iota]
   | |- okp (bind (byte_at _ _ _) _) _ =>
       eapply okp_bind; [apply byte_at_spec; side | let v := fresh "c" in intros v _; cbn beta iota]
   | |- okp (bind (errorf _ _ _) _) _ =>
@@ -132,9 +146,10 @@ Ltac exec1 :=
                                                intros [st l] H; unfold errorf_post in H; cbn beta iota]
   | |- okp (bind (Ok _) _) _ => cbn [bind]; cbn beta iota
   | |- okp (bind (if ?c then _ else _) _) _ => let E := fresh "E" in destruct c eqn:E
-  | |- okp (bind (match ?x with _ => _ end) _) _ => destruct x
+  | |- okp (bind (match ?x with _ => _ end) _) _ => let E := fresh "Em" in destruct x eqn:E
   | |- okp (if ?c then _ else _) _ => let E := fresh "E" in destruct c eqn:E
-  | |- okp (match ?x with _ => _ end) _ => destruct x
+  | |- okp (match ?x with _ => _ end) _ => let E := fresh "Em" in destruct x eqn:E
+  | |- okp (let _ := _ in _) _ => cbv zeta
   | |- okp (errorf _ _ _) _ =>
       eapply okp_weaken; [apply errorf_spec; [assumption|side] | let st := fresh "st" in let l := fresh "l" in let H := fresh "Hf" in
                                                intros [st l] H; unfold errorf_post in H; dest_hyps; subst st; post]
